@@ -198,7 +198,13 @@ HandleUltraZipBPP (rfbClient* client, int rx, int ry, int rw, int rh)
   {
     unsigned short sx, sy, sw, sh;
     unsigned int se;
+    /* the records must lie inside the decompressed data */
+    size_t left = (size_t)(((unsigned char *)client->raw_buffer + uncompressedBytes) - ptr);
 
+    if (left < 12) {
+      rfbClientLog("ultrazip error: sub-rectangle table exceeds the decompressed data\n");
+      return FALSE;
+    }
     memcpy((char *)&sx, ptr, 2); ptr += 2;
     memcpy((char *)&sy, ptr, 2); ptr += 2;
     memcpy((char *)&sw, ptr, 2); ptr += 2;
@@ -213,6 +219,10 @@ HandleUltraZipBPP (rfbClient* client, int rx, int ry, int rw, int rh)
 
     if (se == rfbEncodingRaw)
     {
+        if (left - 12 < (size_t)sw * sh * (BPP / 8)) {
+          rfbClientLog("ultrazip error: sub-rectangle exceeds the decompressed data\n");
+          return FALSE;
+        }
         client->GotBitmap(client, (unsigned char *)ptr, sx, sy, sw, sh);
         ptr += ((sw * sh) * (BPP / 8));
     }
